@@ -7,6 +7,19 @@ COMMON_TB = [
 ]
 
 CONFIG = {
+    "C05": {
+        "quick_n": 40000, "thorough_n": 400000, "thorough_seeds": 4, "search_s": 60,
+        "model_fn": "build / lookup / look (DFS over the implicit trie)",
+        "go_entry": "denco.Router.Build + denco.Router.Lookup",
+        "rule": "pattern tables (1-8 keys quick, 1-40 thorough) over literals {a b ab x - = e-acute a.b c a-b}, ':name', '*wildcard', 'a=:k', mid-segment ':' and '*', shared-prefix siblings, 1 table in 12 with keys Build must reject ('#', NUL, duplicate names); 6 lookups per table: instantiations with values from {1 ab a '' a#b : * # a:b e-acute x.y %2F a=b}, mutated instantiations, the keys themselves, random bytes over {a b / : * # = - NUL}. Keys are passed to Build in the generated (random) order. Non-trivial = Build accepted a table with at least one parameterised key; distinct = distinct input lines.",
+        "trusted_base": COMMON_TB + [
+            "the BASE/CHECK double array (findBase, XOR indexing, 22-bit limits) is abstracted as the child function of the implicit trie: its encoding is validated only by the correspondence stream",
+            "Go's sort.Stable and string comparison are modelled by a stable insertion sort over a bytewise lexicographic order",
+        ],
+        "assumptions": ["values registered for patterns are their positions in the list given to Build",
+                        "tables stay far below denco.MaxSize; SizeHint is not modelled (capacity only)"],
+        "partial": ["denco.Mux (method dispatch wrapper in server.go) is not modelled; C01 covers method dispatch through the API router"],
+    },
     "C07": {
         "quick_n": 20000, "thorough_n": 400000, "thorough_seeds": 4, "search_s": 60,
         "model_fn": "parseAccept / negotiateContentType / negotiateContentEncoding",
@@ -20,3 +33,7 @@ CONFIG = {
         "partial": ["T5 (monotonicity of q in the digit string) and T6 (API-level 406) are not yet theorems"],
     },
 }
+
+# properties not claimed (with the reason) and hook commits in /repo (none so far: no hooks needed)
+NOT_APPLICABLE = {}
+HOOK_COMMITS = []
